@@ -507,5 +507,9 @@ func genReconn(r *Rng, prop string) *Scenario {
 		}
 	}
 	sc.EndUs = h + 10*maxDur + 100*(cfg.LatC2BUs+cfg.LatB2CUs)
+	for _, y := range cfg.Yields {
+		// parked goroutines slow every task / reconnect down
+		sc.EndUs += int64(len(sc.Ops)+6) * y * 3
+	}
 	return sc
 }
